@@ -2,7 +2,7 @@
 From Coq Require Import Reals List.
 From Coq Require String.
 From BLE Require Import Num.InstR Model.GMM Model.KMeans Generated.Facts
-     Proofs.RLemmas Proofs.GMMLik Proofs.GMMStats Proofs.KMeansR Proofs.Chunks Proofs.Sched.
+     Proofs.RLemmas Proofs.GMMLik Proofs.GMMStats Proofs.KMeansR Proofs.Chunks Proofs.FactsDefs Proofs.Sched.
 Import ListNotations.
 Open Scope R_scope.
 
